@@ -19,6 +19,7 @@
 import SfModel.G72x
 import SfModel.Block
 import SfModel.BlockConv
+import SfModel.AdpcmReader
 namespace Sf.G72x
 open Sf.Float Sf.Block
 
@@ -42,6 +43,9 @@ def toCaller (cv : Conv) (ty : Ty) (v : Int) : Int :=
   | .s32 => wrapS 32 (v * 65536)                                            -- arith_shift_left (sptr [k], 16)
   | .f32 => intTimes f32 (if cv.normF then pow2 (-15) else pow2 0) v
   | .f64 => intTimes f64 (if cv.normD then pow2 (-15) else pow2 0) v
+
+/-- `g72x_init`: `if (psf->sf.channels != 1) return SFE_G72X_NOT_MONO` — the open (read or write) fails -/
+def initOk (channels : Nat) : Bool := channels = 1
 
 /-! ## write side -/
 
@@ -105,12 +109,12 @@ def RHandle.read (h : RHandle) (ty : Ty) (n : Nat) : RHandle × List Int × Nat 
   if n = 0 then (h, [], 0)
   else if h.pos ≥ h.frames then (h, zeros n, 0)
   else
-    let (st, d, count) := h.r.readChunked (chunkOf ty) (n + 1) h.st n [] 0
+    let (st, d, count) := h.r.readChunkedBrk (chunkOf ty) true (n + 1) h.st n [] 0
     let c := min count (h.frames - h.pos)
     ({ h with st := st, pos := h.pos + c }, d.take c ++ zeros (n - c), c)
 
 /-- `sf_seek`: the handle is not seekable, every call fails (SFE_NOT_SEEKABLE) and changes nothing -/
-def RHandle.seek (h : RHandle) (_offset : Int) (_whence : Nat) : Option RHandle := none
+def RHandle.seek (_h : RHandle) (_offset : Int) (_whence : Nat) : Option RHandle := none
 
 /-- frames a reader finds in a file whose data region has `n` bytes -/
 def framesAtOpen (r : Rate) (n : Nat) : Nat := blocksTotal r n * blockSamples
